@@ -137,8 +137,9 @@ func (CommodityDirective) directive()        {}
 func (d CommodityDirective) GetRange() Range { return d.Range }
 
 type Include struct {
-	Path  string
-	Range Range
+	Path      string
+	PathRange Range // the path as written (quotes included), without surrounding blanks
+	Range     Range
 }
 
 func (Include) directive()        {}
